@@ -5,7 +5,7 @@
     Definitions only (theorems: UciProofs.v).  Strings are lists of byte codes.
 
     What is modelled
-      - the split of a line into tokens (regexp "\\s+" Split), the command switch;
+      - the split of a line into tokens (strings.TrimSpace, then regexp "\\s+" Split), the command switch;
       - the engine's current position as [FenImpl.fpos] plus the length of its undo history
         (historyCounter; DoMove writes history[historyCounter], an array of MaxMoves = 512);
       - config.Settings as a function from the fields an option can write ([field]) to values;
@@ -31,9 +31,16 @@ Open Scope N_scope.
 (** ** byte strings from literals *)
 Definition b (s : string) : str := map N_of_ascii (list_ascii_of_string s).
 
-(** ** tokens: regexWhiteSpace = "\\s+" (uci.go:208), RE2 \s = [\t\n\f\r ] (no \v, ASCII only).
-    Regexp.Split(cmd, -1) on a non-empty string: the pieces between maximal white space runs;
-    a leading / trailing run gives an empty first / last token.  Never the empty list. *)
+(** ** tokens: regexWhiteSpace = "\\s+" (uci.go:210), RE2 \s = [\t\n\f\r ] (no \v, ASCII only).
+    uci.go:219  tokens := regexWhiteSpace.Split(strings.TrimSpace(cmd), -1)
+    strings.TrimSpace removes leading and trailing UNICODE white space (\v, U+0085, U+00A0,
+    U+2000.. as well: [FenImpl.trim_space], the model validated for setupBoard); then
+    Regexp.Split(s, -1): the pieces between maximal runs of \s; the empty string gives [""].
+    Every \s byte is Unicode white space, so after trimming no leading / trailing run of \s is
+    left: the first and the last token are non-empty unless the whole line was white space
+    (then there is one empty token).  Never the empty list.
+    (Before commit "fix: leading white space does not hide a UCI command" the line was split
+    untrimmed and a leading blank made tokens[0] the empty string.) *)
 Definition is_ws (c : N) : bool := (c =? 9) || (c =? 10) || (c =? 12) || (c =? 13) || (c =? 32).
 Fixpoint split_ws (s cur : str) (inws : bool) : list str :=
   match s with
@@ -41,7 +48,7 @@ Fixpoint split_ws (s cur : str) (inws : bool) : list str :=
   | c :: r => if is_ws c then (if inws then split_ws r cur true else rev cur :: split_ws r [] true)
               else split_ws r (c :: cur) false
   end.
-Definition tokens (cmd : str) : list str := split_ws cmd [] false.
+Definition tokens (cmd : str) : list str := split_ws (trim_space cmd) [] false.
 
 (** ** config.Settings: the fields an option handler assigns (ucioption.go:237-406) *)
 Inductive field :=
